@@ -485,6 +485,17 @@ def exDb : Db :=
               exRow exTime exS Mob.ident Mob.ident],
     cats := [exCat exLength exLength exM, exCat exTime exTime exS] }
 
+def errIs (r : Option (Except ErrKind Out)) (e : ErrKind) : Bool :=
+  match r with
+  | some (.error x) => x == e
+  | _ => false
+
+def exLim : Sym := 7170412              -- "lim": a length category with limits 0 ≤ x ≤ 100 m
+
+/-- `exDb` plus a category with limits -/
+def exDbLim : Db :=
+  { exDb with cats := exDb.cats ++ [{ exCat exLim exLength exM with minV := some 0, maxV := some 100 }] }
+
 def outputs (db : Db) (s : St) : List Op → List (Except ErrKind Out)
   | [] => []
   | op :: ops => (step db s op).2 :: outputs db (step db s op).1 ops
